@@ -317,6 +317,16 @@ theorem firstWithPath_partial {σ σ' : List String} (hl : (σ.filter (· != "")
 
 example : ((["", "/w/a.journal", ""] : List String).filter (· != "")).length ≤ 1 := by decide
 
+/-! ## 4b. The correspondence enumerates ALL orders -/
+
+/-- `perms σ` (what the driver runs the pinned model on) contains every iteration order of `σ`:
+    the driver's model-set is the set of outputs over all orders the theorems quantify over. -/
+theorem perms_complete {α : Type} {σ σ' : List α} (h : σ'.Perm σ) : σ' ∈ perms σ := mem_perms_of_perm h
+
+/-- hence every output of a pinned `…In` function for some order is in the enumerated set -/
+theorem model_set_complete {α β : Type} (f : List α → β) {σ σ' : List α} (h : σ'.Perm σ) :
+    f σ' ∈ (perms σ).map f := mem_map_of_mem (perms_complete h)
+
 /-! ## 5. All modelled responses together -/
 
 /-- What the modelled responses read, every Go map as its entries in SOME iteration order.
